@@ -459,10 +459,19 @@ pub fn execute(c: &PanicCase) -> PanicObs {
             let after = p_a(black_box(1));
             (during, after)
         });
-        let _ = tx.send(match r {
-            Ok((9001, 12)) => "ok".to_string(),
-            Ok(x) => format!("wrong values {x:?}"),
-            Err(_) => format!("panicked: {}", crate::worker::last_panic()),
+        // ... and the other kind of guard as well
+        let r2 = std::panic::catch_unwind(|| {
+            let p = InjectorPP::prevent();
+            let v = p_a(black_box(1));
+            drop(p);
+            v
+        });
+        let _ = tx.send(match (r, r2) {
+            (Ok((9001, 12)), Ok(12)) => "ok".to_string(),
+            (Ok((9001, 12)), Ok(v)) => format!("under a preventer taken afterwards the function returned {v}, originally 12"),
+            (Ok((9001, 12)), Err(_)) => format!("a preventer could not be taken afterwards: {}", crate::worker::last_panic()),
+            (Ok(x), _) => format!("wrong values {x:?}"),
+            (Err(_), _) => format!("panicked: {}", crate::worker::last_panic()),
         });
     });
     let tid_line = rx.recv_timeout(std::time::Duration::from_secs(5)).unwrap_or_default();
